@@ -346,12 +346,13 @@ impl MethodDescriptorSlice {
 			bail!("method descriptor {self:?} doesn't start with '('");
 		}
 
-		let mut size = 1; // implicit `this` argument
+		let mut size: u8 = 1; // implicit `this` argument
 		loop {
 			if chars.next_if_eq(&')').is_some() {
 				break;
 			} else if chars.next_if(|&x| x == 'D' || x == 'J').is_some() {
-				size += 2;
+				size = size.checked_add(2)
+					.with_context(|| anyhow!("descriptor {self:?} takes more than 255 argument slots"))?;
 			} else {
 				while chars.next_if_eq(&'[').is_some() { };
 
@@ -364,7 +365,8 @@ impl MethodDescriptorSlice {
 					}
 				}
 
-				size += 1;
+				size = size.checked_add(1)
+					.with_context(|| anyhow!("descriptor {self:?} takes more than 255 argument slots"))?;
 			}
 		}
 
